@@ -422,10 +422,22 @@ func Run(c *core.Ctx, replay string) (*core.Result, error) {
 			id++
 			cases = append(cases, Case{Case: id, Fields: []AField{sibling("Aa"), decorate(f), strSibling}, Ignored: ign[id%3]})
 		}
+		// every exported, tagged, non-ignored plain field once more as an opaque field of each generator:
+		// an opaque field keeps its key, only its type is hidden
+		for _, f := range universe {
+			if f.Exported && f.Hasjson && f.Tagname == "n" && f.Emb == "no" && f.Gomacro == "" {
+				for _, op := range []string{"typescript", "dart", "dart, typescript"} {
+					id++
+					g := decorate(f)
+					g.Opaque = op
+					cases = append(cases, Case{Case: id, Fields: []AField{sibling("Aa"), g, strSibling}, Ignored: ign[id%3]})
+				}
+			}
+		}
 		// pairs and triples of random universe fields with distinct Go names
 		extra := 60
 		if c.Thorough() {
-			extra = 1500
+			extra = 12000
 		}
 		for k := 0; k < extra; k++ {
 			id++
